@@ -1,5 +1,5 @@
 From Coq Require Import NArith List Bool.
-From Dolt Require Import Base.Str Gen.C04Consts C03.Model C03.Spec C03.Corr C04.Model C04.Spec C04.Proofs.
+From Dolt Require Import Base.Str Gen.C04Consts C03.Model C03.Spec C03.Corr C03.Proofs C04.Model C04.Spec C04.Proofs.
 Import ListNotations.
 Local Open Scope N_scope.
 
@@ -34,3 +34,28 @@ Theorem C04_consts_pinned :
   /\ addr_sz = hash_byte_len /\ index_rec_type_size = 1.
 Proof. exact c04_consts_pinned. Qed.
 Print Assumptions C04_consts_pinned.
+
+(* a validated index (genuine or stale) whose lookups are the journal's own ranges is transparent *)
+Theorem C04_index_transparent_validated :
+  forall (crc : bytes -> N) (bufsz : N), (forall b, crc b < 4294967296) ->
+  forall (can_write : bool) (max_novel : N) (known : list bytes) (ib j : bytes)
+         (indexed safe : N) (c : rmap) (rs : list wrec) (ts : N) (a tail2 : bytes),
+    load_index crc ib j = Some (indexed, c, safe) ->
+    j = enc_all crc rs ++ enc crc (WRoot ts a) ++ tail2 ->
+    Forall (wf_rec bufsz) rs -> wf_rec bufsz (WRoot ts a) ->
+    indexed = total_len rs ->
+    (forall h, In h known ->
+       assoc (addr16 h) c = assoc h (spec_ranges 0 rs [])
+       /\ a16_distinct crc bufsz j h) ->
+    view_of_boot crc known (bootstrap_with_index crc bufsz can_write max_novel ib j)
+    = view_of_boot crc known (bootstrap_no_index crc bufsz can_write max_novel j).
+Proof. exact index_transparent_validated. Qed.
+Print Assumptions C04_index_transparent_validated.
+
+Theorem C04_own_lookups_agree :
+  forall (bts : list batch) (rs : list wrec) (h : bytes),
+    map (fun l => (lk_addr l, lk_off l, lk_len l)) (concat (map bt_lookups bts)) = rlookups 0 rs ->
+    (forall k v, In (k, v) (spec_ranges 0 rs []) -> addr16 k = addr16 h -> k = h) ->
+    assoc (addr16 h) (cached_of bts) = assoc h (spec_ranges 0 rs []).
+Proof. exact own_lookups_agree. Qed.
+Print Assumptions C04_own_lookups_agree.
